@@ -172,13 +172,32 @@ static int add_leaf(vh_rng* r, int kind, int n, var* keep) {
   /* map keys: an arithmetic progression with a varying start and stride, so that every slot of the table
      (the first and the last one in particular) gets to be the only / first / last occupied one */
   int64_t kbase = map_key_base != INT64_MIN ? map_key_base : vh_range(r, -20, 20), kstep = map_key_base != INT64_MIN ? 1 : (int64_t[]){ 1, 5, 7, 11 }[vh_below(r, 4)];
-  for (int i = 0; i < n; i++) {
+  /* maps: insertion order ascending, descending or scattered (rotations and probe displacement depend on it) */
+  int map_order = leaf_histories ? (int)vh_below(r, 3) : 0;
+  for (int j = 0; j < n; j++) {
+    int i = map_order == 0 ? j : map_order == 1 ? n - 1 - j : (int)(((int64_t)j * 7 + 3) % n);
+    if (map_order == 2 && (n % 7) == 0) { i = j; }      /* 7 does not generate Z/n: fall back */
+    if (!(kind == V_TABLE || kind == V_TREE)) { i = j; }
     int64_t x = (kind == V_TABLE || kind == V_TREE) ? kbase + (int64_t)i * kstep : vh_range(r, -9, 30);
     v->ref[i].arity = 0; v->ref[i].v[0] = x;
     if (kind == V_TUPLE) { push(v->obj, new(Int, $I(x))); }
     else if (kind == V_TABLE || kind == V_TREE) { set(v->obj, $I(x), $I(i)); }
     else { push(v->obj, $I(x)); }
   }
+  if (leaf_histories && (kind == V_TABLE || kind == V_TREE) && n > 1 && vh_chance(r, 60)) {
+    /* a history of removals and re-insertions (for a Tree: removal repairs and rotations; for a Table: back-shifts) */
+    int steps = 1 + (int)vh_below(r, 8);
+    for (int k = 0; k < steps; k++) {
+      int i = (int)vh_below(r, (uint64_t)n);
+      int64_t x = kbase + (int64_t)i * kstep;
+      if (mem(v->obj, $I(x))) { rem(v->obj, $I(x)); if (vh_chance(r, 70)) { set(v->obj, $I(x), $I(i)); } }
+      else { set(v->obj, $I(x), $I(i)); }
+    }
+    /* restore the full key set: the fixed length n is what the rest of the harness assumes */
+    for (int i = 0; i < n; i++) { int64_t x = kbase + (int64_t)i * kstep; if (!mem(v->obj, $I(x))) { set(v->obj, $I(x), $I(i)); } }
+    vh_count("map_leaves_with_an_edit_history");
+  }
+  if (map_order == 1) { vh_count("map_leaves_filled_in_descending_order"); }
   snprintf(v->desc, sizeof v->desc, "%s[%d]", VNAME[kind], n);
   if (leaf_histories && (kind == V_ARRAY || kind == V_LIST || kind == V_TUPLE) && vh_chance(r, 60)) {
     /* a history of insertions and removals at both ends and in the middle: the links / cursors the walk relies on
@@ -205,6 +224,16 @@ static int add_leaf(vh_rng* r, int kind, int n, var* keep) {
     int k = 0;
     for (var it = iter_init(v->obj); it != Terminal && k < MAXREF && k <= n; it = iter_next(v->obj, it)) { v->ref[k].arity = 0; v->ref[k++].v[0] = c_int(it); }
     v->ordered = 1;
+    /* whatever the order, forward iteration of a map yields each of its n keys exactly once */
+    vh_eval();
+    if (k != n) { vh_violation(K(v, "forward-count"), "%s: forward iteration yields %s%d keys, the map holds %d", VNAME[kind], k > n ? "more than " : "", k > n ? n : k, n); }
+    else {
+      for (int i = 0; i < n; i++) {
+        int64_t x = kbase + (int64_t)i * kstep; int found = 0;
+        for (int q = 0; q < n; q++) { found += v->ref[q].v[0] == x; }
+        if (found != 1) { vh_violation(K(v, "forward-not-the-key-set"), "%s[%d]: key %" PRId64 " is yielded %d times", VNAME[kind], n, x, found); break; }
+      }
+    }
   }
   return nv++;
 }
